@@ -242,6 +242,13 @@ func (c *Conn) cliClose(reset bool) {
 func (c *Conn) cliTake(dst []chunk) []chunk {
 	raceOff()
 	c.mu.Lock()
+	if c.outLimit > 0 {
+		// the client has stopped reading: what the server writes stays in the
+		// (bounded) queue, and its next Write blocks once the bound is reached
+		c.mu.Unlock()
+		raceOn()
+		return dst
+	}
 	for i := 0; i < c.nout; i++ {
 		dst = append(dst, c.out[i])
 		c.out[i] = chunk{}
